@@ -5,6 +5,7 @@ package c05
 
 import (
 	"fmt"
+	"sort"
 	"strings"
 
 	"github.com/Tom-Johnston/mamba/graph"
@@ -23,13 +24,14 @@ func init() {
 			"non-trivial = history with a RemoveVertex of a non-last vertex, or a Copy/InducedSubgraph followed by a mutation of source or result; distinct = hash of (start graph, operation sequence)",
 		Assumptions: []string{
 			"oracle: rg.G bit matrix with Induced/RemoveVertex/AddVertex written from the interface documentation",
+			"argument slices stay caller-owned: the same slice object may be passed again and the caller may overwrite it after the call; slices returned by observers may be overwritten by the caller",
 			"argument domain: valid vertex indices, i == j allowed for AddEdge/RemoveEdge, AddVertex neighbour lists in any order without repeated entries, InducedSubgraph vertex lists in any order without repeated entries",
 			"start graphs are built by filling the exported struct fields directly or with NewDense/NewSparse(n, nil)",
 		},
 		Run:            run,
 		MinEvaluations: map[string]int{"quick": 200000, "thorough": 2000000},
 		MinNontrivial:  map[string]int{"quick": 2000, "thorough": 20000},
-		RequiredObs:    []string{"op:AddVertex", "op:RemoveVertex", "op:RemoveVertex(non-last)", "op:AddEdge", "op:RemoveEdge", "op:Copy", "op:InducedSubgraph", "mutation_after_copy_or_induced", "addvertex_reusing_backing_array", "large_histories(n crossing 64/128)", "start_graphs_with_nonunit_edge_bytes_and_dirty_spare_capacity"},
+		RequiredObs:    []string{"op:AddVertex", "op:RemoveVertex", "op:RemoveVertex(non-last)", "op:AddEdge", "op:RemoveEdge", "op:Copy", "op:InducedSubgraph", "mutation_after_copy_or_induced", "addvertex_reusing_backing_array", "large_histories(n crossing 64/128)", "start_graphs_with_nonunit_edge_bytes_and_dirty_spare_capacity", "argument_slice_object_passed_again", "argument_slice_overwritten_by_caller_after_call", "returned_slices_overwritten_then_reobserved"},
 	})
 }
 
@@ -90,6 +92,42 @@ type runner struct {
 	c       *engine.Ctx
 	label   string
 	variant int // memory layout of the start graphs (rg.DenseVariant)
+	// argument slices handed to the library: a list with the same contents is handed over as the SAME slice object
+	// again (a caller reusing its neighbour list), all other argument slices are overwritten by the caller after the
+	// call (a caller recycling its buffer).  Neither may affect the graphs.
+	pool map[string][]int
+	step int
+}
+
+// arg returns the slice to pass for list and whether it is a pooled (reused, never overwritten) object.
+func (r *runner) arg(list []int, step int) ([]int, bool) {
+	if r.pool == nil {
+		r.pool = map[string][]int{}
+	}
+	key := fmt.Sprint(list)
+	if s, ok := r.pool[key]; ok {
+		r.c.Obs("argument_slice_object_passed_again", 1)
+		return s, true
+	}
+	cp := append([]int(nil), list...)
+	if step%2 == 0 && len(list) > 0 {
+		r.pool[key] = cp
+		return cp, true
+	}
+	return cp, false
+}
+
+// scribble overwrites a non-pooled argument slice after the call.
+func (r *runner) scribble(l []int, pooled bool) {
+	if pooled {
+		return
+	}
+	for i := range l {
+		l[i] = 0
+	}
+	if len(l) > 0 {
+		r.c.Obs("argument_slice_overwritten_by_caller_after_call", 1)
+	}
 }
 
 // variant selects how the start graphs are laid out in memory (see rg.DenseVariant): 0 = plain, > 0 = edge bytes
@@ -132,8 +170,11 @@ func (r *runner) apply(key string, ts *[]*tracked, o op) (what, observed string)
 				c.Obs("addvertex_reusing_backing_array", 1)
 			}
 		}
-		l1 := append([]int(nil), o.list...)
-		l2 := append([]int(nil), o.list...)
+		l1, p1 := r.arg(o.list, r.step)
+		l2 := l1
+		if !p1 {
+			l2 = append([]int(nil), o.list...)
+		}
 		if pi := c.Call(key, func() { t.d.AddVertex(l1) }); pi != nil {
 			return "dense|AddVertex|panic@" + engine.SiteNoLine(pi.Site), pi.String()
 		}
@@ -145,6 +186,8 @@ func (r *runner) apply(key string, ts *[]*tracked, o op) (what, observed string)
 				return "AddVertex|modified-its-argument", fmt.Sprintf("argument %v became %v / %v", o.list, l1, l2)
 			}
 		}
+		r.scribble(l1, p1)
+		r.scribble(l2, p1)
 		t.m = t.m.AddVertex(o.list)
 	case "rv":
 		c.Obs("op:RemoveVertex", 1)
@@ -188,8 +231,11 @@ func (r *runner) apply(key string, ts *[]*tracked, o op) (what, observed string)
 		c.Obs("op:InducedSubgraph", 1)
 		nt := &tracked{m: t.m.Induced(o.list), shared: true}
 		t.shared = true
-		l1 := append([]int(nil), o.list...)
-		l2 := append([]int(nil), o.list...)
+		l1, p1 := r.arg(o.list, r.step)
+		l2 := l1
+		if !p1 {
+			l2 = append([]int(nil), o.list...)
+		}
 		if pi := c.Call(key, func() { nt.d = t.d.InducedSubgraph(l1) }); pi != nil {
 			return "dense|InducedSubgraph|panic@" + engine.SiteNoLine(pi.Site), pi.String()
 		}
@@ -201,6 +247,8 @@ func (r *runner) apply(key string, ts *[]*tracked, o op) (what, observed string)
 				return "InducedSubgraph|modified-its-argument", fmt.Sprintf("argument %v became %v / %v", o.list, l1, l2)
 			}
 		}
+		r.scribble(l1, p1)
+		r.scribble(l2, p1)
 		*ts = append(*ts, nt)
 	}
 	if (o.kind == "av" || o.kind == "rv" || o.kind == "ae" || o.kind == "re") && t.shared {
@@ -226,6 +274,28 @@ func (r *runner) observe(key string, ts []*tracked, lastKind string) (what, obse
 			if msg != "" {
 				return rep + "|after-" + lastKind + "|" + kindOf(msg), fmt.Sprintf("g%d (%s): %s; model %v", ti, rep, msg, t.m)
 			}
+			// the slices returned by the observers belong to the caller: overwrite them and look again
+			if r.step%4 == 1 && t.m.N > 0 {
+				if pi := c.Call(key+"|observe-after-caller-overwrote-returned-slices", func() {
+					for v := 0; v < t.m.N; v++ {
+						nb := g.Neighbours(v)
+						for i := range nb {
+							nb[i] = 0
+						}
+					}
+					d := g.Degrees()
+					for i := range d {
+						d[i] = -1
+					}
+					msg = rg.Conforms(g, t.m)
+				}); pi != nil {
+					return rep + "|after-" + lastKind + "|observer-panic-after-returned-slices-overwritten@" + engine.SiteNoLine(pi.Site), fmt.Sprintf("g%d (%s): %s", ti, rep, pi.String())
+				}
+				c.Obs("returned_slices_overwritten_then_reobserved", 1)
+				if msg != "" {
+					return rep + "|after-" + lastKind + "|returned-slice-aliases-graph|" + kindOf(msg), fmt.Sprintf("g%d (%s): after the caller overwrote the slices returned by Neighbours/Degrees: %s; model %v", ti, rep, msg, t.m)
+				}
+			}
 		}
 	}
 	return "", ""
@@ -248,7 +318,9 @@ func (r *runner) runHistory(startName string, start *rg.G, viaCons bool, ops []o
 		c.Violation("edit|"+w+"|"+startName, map[string]interface{}{"start": start.String(), "workload": r.label}, ob, "observers equal to the adjacency-set model")
 		return false
 	}
+	r.pool = nil
 	for step, o := range ops {
+		r.step = step
 		var key string
 		if keyPfx == "" {
 			key = "edit|" + histString(startName, ops[:step+1])
@@ -461,6 +533,7 @@ func run(c *engine.Ctx) {
 				// generate ops against a model-only simulation
 				sim := []*rg.G{start.Copy()}
 				var ops []op
+				var lastAV []int
 				bias := i % 4 // 0: balanced, 1: vertex churn, 2: edge churn, 3: copy/induced heavy
 				for len(ops) < L {
 					ti := rg0.Intn(len(sim))
@@ -478,6 +551,22 @@ func run(c *engine.Ctx) {
 							k = rg0.Intn(n + 1)
 						}
 						l := rg0.Perm(n)[:k]
+						if rg0.Bool(0.3) && k > 1 {
+							sort.Ints(l) // a sorted list (a caller may well pass one)
+						}
+						if lastAV != nil && rg0.Bool(0.35) {
+							l = lastAV // the same neighbour list again
+							okList := true
+							for _, x := range l {
+								if x >= n {
+									okList = false
+								}
+							}
+							if !okList {
+								continue
+							}
+						}
+						lastAV = append([]int{}, l...)
 						o = op{kind: "av", t: ti, list: append([]int{}, l...)}
 						sim[ti] = m.AddVertex(l)
 					case (bias == 1 && x < 0.60) || (bias != 1 && x < 0.24):
